@@ -426,6 +426,7 @@ class Dataset(_HasAttrs):
                 raise ValueError("unknown format %r" % (format,))
             img = FileImage(format)
             FS.files[filename] = img
+            FS.created(filename)
             FS.history.pop(filename, None)
             FS.synced.pop(filename, None)
         else:
